@@ -81,6 +81,38 @@ fn run(r: &mut Run) -> Result<(), MachineryError> {
         }
     })?;
 
+    // (i') pairs and triples of representative characters: width is additive whatever the neighbours
+    r.range("C10/representative-pairs", &format!("{}; each pair (x,y): display_width of \"xy\", \"axyb\", \"x CSI y OSC x\" == sum of the reference widths", reps::pair_desc(t)), reps::pair_space(t), move |i, cx| {
+        let (x, y) = reps::pair_at(t, i);
+        cx.seq = idx_seq(i);
+        let (wx, wy) = (ref_char_width(x), ref_char_width(y));
+        for (s, exp) in [(format!("{x}{y}"), wx + wy), (format!("a{x}{y}b"), wx + wy + 2), (format!("{x}\x1b[1m{y}\x1b]8;;u\x07{x}"), 2 * wx + wy)] {
+            cx.eval();
+            cx.set_input(&s);
+            if let Some(w) = cx.guard(|| display_width(&s)) {
+                cx.outcome(&w);
+                if wx + wy != 2 {
+                    cx.nontrivial();
+                }
+                cx.check("C10-sum-of-visible-widths", w == exp, &|| String::new(), &|| json!({"display_width": w, "reference": exp}));
+                cx.check("C10-not-wider-than-bytes", w <= s.len(), &|| String::new(), &|| json!({"display_width": w, "bytes": s.len()}));
+            }
+        }
+    })?;
+    let tb = reps::triple_chars(t);
+    r.range("C10/representative-triples", &format!("{}; each triple: display_width(\"xyz\") == sum of the reference widths", reps::triple_desc(t)), reps::triple_space(t), move |i, cx| {
+        let (x, y, z) = reps::triple_at(&tb, i);
+        cx.seq = idx_seq(i);
+        let s = format!("{x}{y}{z}");
+        let exp = ref_char_width(x) + ref_char_width(y) + ref_char_width(z);
+        cx.eval();
+        cx.set_input(&s);
+        if let Some(w) = cx.guard(|| display_width(&s)) {
+            cx.outcome(&w);
+            cx.check("C10-sum-of-visible-widths", w == exp, &|| String::new(), &|| json!({"display_width": w, "reference": exp}));
+        }
+    })?;
+
     // (ii) well-formed strings
     let alpha = [L, W, CM, E2, EM, TAB, SP, CSI, CSI2, OSB, OSS, OSBS, OSCE, BSL, CSIL, CSIC];
     let n = t.pick(4, 6);
